@@ -103,6 +103,12 @@ def lin(*terms):
 
 
 def worker(ob):
+    if ob.get("kind") == "trees":
+        from specs import dual_trees
+        return dual_trees.tree_worker(ob)
+    if ob.get("kind") == "readback":
+        from specs import C17
+        return C17.worker(ob)
     P, S = get_world()
     fn = P.functions[ob["fn"]]
     order = ob["order"]
@@ -327,14 +333,30 @@ def run(pid, order, tier, seed, design_ref):
     if order == 2 and tier == "thorough":
         L = 3
     obs = obligations(order, L, tier)
+    if order == 2:
+        # "a Hessian, read back per variable pair": the read-back functions of Dual2 (obligations shared with C17)
+        from specs import C17
+        for o in C17.obligations(L, tier):
+            if o["order"] == 2 and o["which"] in ("gradient1", "gradient2"):
+                o = dict(o); o["kind"] = "readback"; o["id"] = "read-back " + o["id"]
+                obs.append(o)
+    from specs import dual_trees
+    tobs, ntrees = dual_trees.tree_obligations(order, tier, seed)
+    obs += tobs
     results = run_pool(obs, worker, seed=seed)
     tot = summarize(results)
+    for f in tot["fails"]:
+        if f.get("sub"):
+            f["ob"] = "tree " + f["sub"]
     violations, known_lines, undecided = [], [], list(tot["undecided"])
     n = 0
     for f in tot["fails"]:
         n += 1
         if f.get("reproduced"):
             role = {"site": f["ob"].split(" |")[0]}
+            if f["ob"].startswith("read-back"):
+                from specs import C17
+                role = C17.role_of(f)
             k = C.match_known(pid, role)
             path = C.save_replay(pid, n, f)
             if k:
@@ -347,12 +369,13 @@ def run(pid, order, tier, seed, design_ref):
             undecided.append(f"ENCODING-MISMATCH {f['ob']}: solver counterexample does not reproduce natively ({f.get('desc','')[:80]}; {f.get('mismatch') or f.get('replay_error')})")
     for u in tot["unknown"]:
         undecided.append("solver unknown: " + u[:200])
-    impls = sorted({o["id"].split(" |")[0] for o in obs})
+    impls = sorted({o["id"].split(" |")[0] for o in obs if o.get("kind") not in ("readback", "trees")})
     ev.cov(
         engine="mirsym (symbolic execution of rustc MIR regenerated from /repo) + z3 " + z3.get_version_string(),
         functions_encoded=sorted(tot["fns"]), operator_impls=impls, library_models=sorted(tot["models"]), axioms=sorted(tot["axioms"]),
         bounds={"vars_per_operand": f"0..{L}", "names": "symbolic atoms (all overlaps / orders / aliasing decided by the solver)",
                 "values": "symbolic reals restricted to the differentiable domain of the operator", "shared_arc": "both shared and separate variable lists",
+                "trees": f"{ntrees} expression trees over + - * / neg exp log pow(2) pow(p) with leaves x, y (tagged) and a float constant: every tree of depth <= 2{'' if tier == 'quick' else ' and every 8th tree of depth 3 (offset by VERIF_SEED)'}, compared with an independent second-order jet arithmetic",
                 "outside": "IEEE rounding/NaN/inf (decided over the reals); more than %d variables per operand; trees deeper than one operator (covered by the chain-rule induction argument, DESIGN §3.1)" % L},
         obligations=len(obs), discharged=sum(1 for r in results if r and not r.get("error") and not r.get("fails") and not r.get("unknown") and not r.get("undecided")),
         evaluations=tot["checks"], distinct_nontrivial=tot["paths"],
